@@ -1361,7 +1361,7 @@ class ComputeGraph(MultiDiGraph):
         if 'identity(' in expr_str:
 
             # replace `no_op` calls with first argument to the function call
-            expr_str = self._process_func_call(expr=expr_str, func='identity', replacement=var)
+            expr_str = self._process_func_call(expr=expr_str, func='identity', replacement=f"({var})")
 
         if 'past(' in expr_str:
 
